@@ -230,4 +230,352 @@ theorem halts_within {D : Int} (hH : 1 ≤ cfg.hyd) (hD : cfg.duration ≤ D) :
       · exact ih _ hh h1 (fun k => hc (k + 1)) (by omega)
       · rw [iter_of_halted wd cfg hh]; exact hh
 
+/-! ### the reported log -/
+
+/-- invariant of the result lists (holds in every reachable state when presolve keeps `prev < sim_time`) -/
+structure LInv (s : St W RN RL) : Prop where
+  times_le : ∀ t ∈ s.times, t ≤ s.prevTime
+  acc_le : ∀ t ∈ s.accepted, t ≤ s.prevTime
+  times_sorted : s.times.Pairwise (· < ·)
+  acc_sorted : s.accepted.Pairwise (· < ·)
+  times_eq : s.times = s.accepted.filter (reportNow cfg)
+  nlen : s.nodeRows.length = s.times.length
+  llen : s.linkRows.length = s.times.length
+  not_already : s.halt ≠ some .raiseAlreadySolved
+
+theorem accept_LInv {s : St W RN RL} (h : LInv cfg s) (hlt : s.prevTime < s.simTime) (hh : s.halt = none) :
+    LInv cfg (acceptPhase wd cfg s) := by
+  have hnot : ¬ s.times.getLast? = some s.simTime := by
+    intro hl
+    have := h.times_le _ (List.mem_of_getLast? hl)
+    omega
+  have hA : ∀ t ∈ s.accepted ++ [s.simTime], t ≤ s.simTime := by
+    intro t ht
+    rcases List.mem_append.1 ht with h1 | h1
+    · have := h.acc_le t h1; omega
+    · simp at h1; omega
+  have hAs : (s.accepted ++ [s.simTime]).Pairwise (· < ·) := by
+    rw [List.pairwise_append]
+    refine ⟨h.acc_sorted, by simp, ?_⟩
+    intro a ha b hb
+    simp at hb; subst hb
+    have := h.acc_le a ha; omega
+  unfold acceptPhase
+  simp only
+  split
+  · rename_i hrep
+    have hT : ∀ t ∈ s.times ++ [s.simTime], t ≤ s.simTime := by
+      intro t ht
+      rcases List.mem_append.1 ht with h1 | h1
+      · have := h.times_le t h1; omega
+      · simp at h1; omega
+    have hTs : (s.times ++ [s.simTime]).Pairwise (· < ·) := by
+      rw [List.pairwise_append]
+      refine ⟨h.times_sorted, by simp, ?_⟩
+      intro a ha b hb
+      simp at hb; subst hb
+      have := h.times_le a ha; omega
+    have hEq : s.times ++ [s.simTime] = (s.accepted ++ [s.simTime]).filter (reportNow cfg) := by
+      rw [List.filter_append, ← h.times_eq]
+      simp [hrep]
+    split
+    · exact ⟨hT, hA, hTs, hAs, hEq, by simp [h.nlen], by simp [h.llen], by simp⟩
+    · exact ⟨hT, hA, hTs, hAs, hEq, by simp [h.nlen], by simp [h.llen], by simp [hh]⟩
+  · rename_i hrep
+    have hT : ∀ t ∈ s.times, t ≤ s.simTime := fun t ht => by have := h.times_le t ht; omega
+    have hEq : s.times = (s.accepted ++ [s.simTime]).filter (reportNow cfg) := by
+      rw [List.filter_append, ← h.times_eq]
+      simp [hrep]
+    split
+    · exact ⟨hT, hA, h.times_sorted, hAs, hEq, h.nlen, h.llen, by simp⟩
+    · exact ⟨hT, hA, h.times_sorted, hAs, hEq, h.nlen, h.llen, by simp [hh]⟩
+
+theorem post_LInv {s : St W RN RL} (h : LInv cfg s) (hlt : s.prevTime < s.simTime) (hh : s.halt = none) :
+    LInv cfg (postPhase wd cfg s) := by
+  unfold postPhase
+  simp only
+  split
+  · split
+    · refine ⟨h.times_le, h.acc_le, h.times_sorted, h.acc_sorted, h.times_eq, h.nlen, h.llen, ?_⟩
+      rcases trialHalt_cases cfg with e | e <;> simp [e]
+    · exact ⟨h.times_le, h.acc_le, h.times_sorted, h.acc_sorted, h.times_eq, h.nlen, h.llen, by simp [hh]⟩
+  · exact accept_LInv wd cfg (s := { s with w := (wd.post s.w).1 })
+      ⟨h.times_le, h.acc_le, h.times_sorted, h.acc_sorted, h.times_eq, h.nlen, h.llen, h.not_already⟩ hlt hh
+
+/-- the log invariant is kept by a pass whenever presolve lands after `prev` -/
+theorem step_LInv {s : St W RN RL} (h : LInv cfg s) (hs : s.halt = none)
+    (hlt : s.prevTime < (presolvePhase wd s).simTime) : LInv cfg (step wd cfg s) := by
+  have h1 : LInv cfg (presolvePhase wd s) ∧ (presolvePhase wd s).prevTime = s.prevTime ∧ (presolvePhase wd s).halt = none := by
+    cases hr : s.resolve with
+    | true => rw [presolvePhase_resolve wd hr]; exact ⟨h, rfl, hs⟩
+    | false =>
+      rw [presolvePhase_fresh wd hr]
+      exact ⟨⟨h.times_le, h.acc_le, h.times_sorted, h.acc_sorted, h.times_eq, h.nlen, h.llen, h.not_already⟩, rfl, hs⟩
+  obtain ⟨l1, p1, hh1⟩ := h1
+  rw [step_running wd cfg hs]
+  obtain ⟨w', l, heq, _⟩ := solvePhase_spec wd cfg (presolvePhase wd s)
+  have l2 : LInv cfg (solvePhase wd cfg (presolvePhase wd s)).1 := by
+    rw [heq]
+    exact ⟨l1.times_le, l1.acc_le, l1.times_sorted, l1.acc_sorted, l1.times_eq, l1.nlen, l1.llen, l1.not_already⟩
+  have p2 : (solvePhase wd cfg (presolvePhase wd s)).1.prevTime < (solvePhase wd cfg (presolvePhase wd s)).1.simTime := by
+    rw [heq]; simp only; omega
+  have hh2 : (solvePhase wd cfg (presolvePhase wd s)).1.halt = none := by rw [heq]; exact hh1
+  split
+  · exact post_LInv wd cfg l2 p2 hh2
+  · refine ⟨l2.times_le, l2.acc_le, l2.times_sorted, l2.acc_sorted, l2.times_eq, l2.nlen, l2.llen, ?_⟩
+    rcases failHalt_cases cfg with e | e <;> simp [e]
+
+/-! ### what each pass can do to the logs, the call counter and the halt flag -/
+
+/-- halts that stop the run because a step could not be completed -/
+def Halt.isFailure : Halt → Bool
+  | .flagNoConv | .flagTrials | .raiseNoConv | .raiseTrials => true
+  | _ => false
+
+theorem accept_shape (s : St W RN RL) :
+    (acceptPhase wd cfg s).nSolve = s.nSolve ∧ (acceptPhase wd cfg s).calls = s.calls ∧
+    s.times <+: (acceptPhase wd cfg s).times ∧ s.nodeRows <+: (acceptPhase wd cfg s).nodeRows ∧
+    s.linkRows <+: (acceptPhase wd cfg s).linkRows ∧
+    ((acceptPhase wd cfg s).halt = s.halt ∨ (acceptPhase wd cfg s).halt = some .finished ∨
+      (acceptPhase wd cfg s).halt = some .raiseAlreadySolved) := by
+  unfold acceptPhase
+  simp only
+  split
+  · split
+    · simp
+    · split <;> simp
+  · split <;> simp
+
+/-- shape of a post-solve phase: no solver call; logs only grow; a failure halt leaves the logs untouched -/
+theorem post_shape {s : St W RN RL} (hs : s.halt = none) :
+    (postPhase wd cfg s).nSolve = s.nSolve ∧ (postPhase wd cfg s).calls = s.calls ∧
+    s.times <+: (postPhase wd cfg s).times ∧ s.nodeRows <+: (postPhase wd cfg s).nodeRows ∧
+    s.linkRows <+: (postPhase wd cfg s).linkRows ∧
+    (∀ h, (postPhase wd cfg s).halt = some h → h.isFailure = true →
+      h = trialHalt cfg ∧ (postPhase wd cfg s).times = s.times ∧ (postPhase wd cfg s).nodeRows = s.nodeRows ∧
+        (postPhase wd cfg s).linkRows = s.linkRows) := by
+  unfold postPhase
+  simp only
+  split
+  · split
+    · simp
+    · simp [hs]
+  · obtain ⟨a, b, c, d, e, f⟩ := accept_shape wd cfg { s with w := (wd.post s.w).1 }
+    refine ⟨a, b, c, d, e, ?_⟩
+    intro h hh hf
+    rcases f with f | f | f
+    · rw [f] at hh; simp [hs] at hh
+    · rw [f] at hh; cases hh; simp [Halt.isFailure] at hf
+    · rw [f] at hh; cases hh; simp [Halt.isFailure] at hf
+
+/-- shape of one pass from a running state -/
+theorem step_shape {s : St W RN RL} (hs : s.halt = none) :
+    s.nSolve < (step wd cfg s).nSolve ∧ (step wd cfg s).nSolve ≤ s.nSolve + 2 ∧
+    s.times <+: (step wd cfg s).times ∧ s.nodeRows <+: (step wd cfg s).nodeRows ∧
+    s.linkRows <+: (step wd cfg s).linkRows ∧
+    (∀ h, (step wd cfg s).halt = some h → h.isFailure = true →
+      (step wd cfg s).times = s.times ∧ (step wd cfg s).nodeRows = s.nodeRows ∧ (step wd cfg s).linkRows = s.linkRows) := by
+  have e1 : (presolvePhase wd s).nSolve = s.nSolve ∧ (presolvePhase wd s).times = s.times ∧
+      (presolvePhase wd s).nodeRows = s.nodeRows ∧ (presolvePhase wd s).linkRows = s.linkRows ∧
+      (presolvePhase wd s).halt = none := by
+    cases hr : s.resolve with
+    | true => rw [presolvePhase_resolve wd hr]; exact ⟨rfl, rfl, rfl, rfl, hs⟩
+    | false => rw [presolvePhase_fresh wd hr]; exact ⟨rfl, rfl, rfl, rfl, hs⟩
+  obtain ⟨n1, t1, r1, l1, h1⟩ := e1
+  rw [step_running wd cfg hs]
+  obtain ⟨w', l, heq, hl⟩ := solvePhase_spec wd cfg (presolvePhase wd s)
+  have hlen : 1 ≤ l.length ∧ l.length ≤ 2 := by
+    rcases hl with ⟨e, _⟩ | ⟨o, e, _⟩ <;> simp [e]
+  have n2 : (solvePhase wd cfg (presolvePhase wd s)).1.nSolve = s.nSolve + l.length := by rw [heq]; simp [n1]
+  have t2 : (solvePhase wd cfg (presolvePhase wd s)).1.times = s.times := by rw [heq]; exact t1
+  have r2 : (solvePhase wd cfg (presolvePhase wd s)).1.nodeRows = s.nodeRows := by rw [heq]; exact r1
+  have l2 : (solvePhase wd cfg (presolvePhase wd s)).1.linkRows = s.linkRows := by rw [heq]; exact l1
+  have h2 : (solvePhase wd cfg (presolvePhase wd s)).1.halt = none := by rw [heq]; exact h1
+  split
+  · obtain ⟨a, _, c, d, e, f⟩ := post_shape wd cfg h2
+    rw [t2] at c; rw [r2] at d; rw [l2] at e
+    refine ⟨by omega, by omega, c, d, e, ?_⟩
+    intro h hh hf
+    obtain ⟨_, f1, f2, f3⟩ := f h hh hf
+    exact ⟨f1.trans t2, f2.trans r2, f3.trans l2⟩
+  · refine ⟨by simp only; omega, by simp only; omega, ?_, ?_, ?_, ?_⟩
+    · simp only [t2]; exact List.prefix_refl _
+    · simp only [r2]; exact List.prefix_refl _
+    · simp only [l2]; exact List.prefix_refl _
+    · intro _ _ _; exact ⟨t2, r2, l2⟩
+
+theorem step_mono (s : St W RN RL) :
+    s.nSolve ≤ (step wd cfg s).nSolve ∧ s.times <+: (step wd cfg s).times ∧
+    s.nodeRows <+: (step wd cfg s).nodeRows ∧ s.linkRows <+: (step wd cfg s).linkRows := by
+  by_cases hs : s.halt = none
+  · obtain ⟨a, _, c, d, e, _⟩ := step_shape wd cfg hs
+    exact ⟨by omega, c, d, e⟩
+  · rw [step_of_halted wd cfg hs]
+    exact ⟨Nat.le_refl _, List.prefix_refl _, List.prefix_refl _, List.prefix_refl _⟩
+
+/-- nothing that has been reported is ever taken back; the call counter never decreases -/
+theorem iter_mono (n : Nat) (s : St W RN RL) :
+    s.nSolve ≤ (iter wd cfg n s).nSolve ∧ s.times <+: (iter wd cfg n s).times ∧
+    s.nodeRows <+: (iter wd cfg n s).nodeRows ∧ s.linkRows <+: (iter wd cfg n s).linkRows := by
+  induction n generalizing s with
+  | zero => exact ⟨Nat.le_refl _, List.prefix_refl _, List.prefix_refl _, List.prefix_refl _⟩
+  | succ n ih =>
+    obtain ⟨a, b, c, d⟩ := step_mono wd cfg s
+    obtain ⟨a', b', c', d'⟩ := ih (step wd cfg s)
+    exact ⟨Nat.le_trans a a', b.trans b', c.trans c', d.trans d'⟩
+
+/-- a running state that halts within `n` passes makes at least one more solver call -/
+theorem nSolve_lt_of_halts {n : Nat} {s : St W RN RL} (hs : s.halt = none) (hh : (iter wd cfg n s).halt ≠ none) :
+    s.nSolve < (iter wd cfg n s).nSolve := by
+  cases n with
+  | zero => exact absurd hs hh
+  | succ n =>
+    have a := (step_shape wd cfg hs).1
+    have b := (iter_mono wd cfg n (step wd cfg s)).1
+    rw [iter]; omega
+
+/-! ### two worlds that agree on the first `k` solver calls run in lockstep -/
+
+/-- same controls and rows; the solvers answer alike on the calls numbered `< k` -/
+structure Agree (wd wd' : World W RN RL) (k : Nat) : Prop where
+  presolve : wd'.presolve = wd.presolve
+  post : wd'.post = wd.post
+  nodeRow : wd'.nodeRow = wd.nodeRow
+  linkRow : wd'.linkRow = wd.linkRow
+  solve : ∀ w i b, i < k → wd'.solve w i b = wd.solve w i b
+
+variable {wd} in
+theorem Agree.mono {wd' : World W RN RL} {k j : Nat} (A : Agree wd wd' k) (h : j ≤ k) : Agree wd wd' j :=
+  ⟨A.presolve, A.post, A.nodeRow, A.linkRow, fun w i b hi => A.solve w i b (by omega)⟩
+
+theorem solveCall_agree {wd' : World W RN RL} {k : Nat} (A : Agree wd wd' k) (s : St W RN RL) (b : Bool)
+    (h : s.nSolve < k) : solveCall wd' s b = solveCall wd s b := by
+  unfold solveCall; rw [A.solve _ _ _ h]
+
+theorem solvePhase_agree {wd' : World W RN RL} {k : Nat} (A : Agree wd wd' k) (s : St W RN RL)
+    (hk : (solvePhase wd cfg s).1.nSolve ≤ k) : solvePhase wd' cfg s = solvePhase wd cfg s := by
+  have hn : s.nSolve < k := by
+    obtain ⟨w', l, heq, hl⟩ := solvePhase_spec wd cfg s
+    have : 1 ≤ l.length := by rcases hl with ⟨e, _⟩ | ⟨o, e, _⟩ <;> simp [e]
+    rw [heq] at hk; simp only at hk; omega
+  have c1 : solveCall wd' s false = solveCall wd s false := solveCall_agree wd A s false hn
+  have e : ∀ w0 : World W RN RL, solvePhase w0 cfg s =
+      if (!(solveCall w0 s false).2.ok && cfg.backup) = true then solveCall w0 (solveCall w0 s false).1 true
+      else solveCall w0 s false := fun _ => rfl
+  rw [e wd] at hk
+  rw [e wd', e wd, c1]
+  by_cases hc : (!(solveCall wd s false).2.ok && cfg.backup) = true
+  · simp only [if_pos hc] at hk ⊢
+    have hn2 : (solveCall wd s false).1.nSolve < k := by
+      simp only [solveCall] at hk ⊢; omega
+    exact solveCall_agree wd A _ true hn2
+  · simp only [if_neg hc]
+
+theorem postPhase_agree {wd' : World W RN RL} {k : Nat} (A : Agree wd wd' k) (s : St W RN RL) :
+    postPhase wd' cfg s = postPhase wd cfg s := by
+  unfold postPhase acceptPhase
+  rw [A.post, A.nodeRow, A.linkRow]
+
+theorem step_agree {wd' : World W RN RL} {k : Nat} (A : Agree wd wd' k) (s : St W RN RL)
+    (hk : (step wd cfg s).nSolve ≤ k) : step wd' cfg s = step wd cfg s := by
+  by_cases hs : s.halt = none
+  · have p : presolvePhase wd' s = presolvePhase wd s := by unfold presolvePhase; rw [A.presolve]
+    have hk' : (solvePhase wd cfg (presolvePhase wd s)).1.nSolve ≤ k := by
+      rw [step_running wd cfg hs] at hk
+      split at hk
+      · rename_i hok
+        have h2 : (solvePhase wd cfg (presolvePhase wd s)).1.halt = none := by
+          obtain ⟨w', l, heq, _⟩ := solvePhase_spec wd cfg (presolvePhase wd s)
+          rw [heq]
+          cases hr : s.resolve with
+          | true => rw [presolvePhase_resolve wd hr]; exact hs
+          | false => rw [presolvePhase_fresh wd hr]; exact hs
+        rw [(post_shape wd cfg h2).1] at hk; exact hk
+      · exact hk
+    rw [step_running wd cfg hs, step_running wd' cfg hs, p, solvePhase_agree wd cfg A _ hk', postPhase_agree wd cfg A]
+  · rw [step_of_halted wd cfg hs, step_of_halted wd' cfg hs]
+
+/-- as long as the first run has made at most `k` solver calls, the second run is in the very same state -/
+theorem iter_agree {wd' : World W RN RL} {k : Nat} (A : Agree wd wd' k) (n : Nat) (s : St W RN RL)
+    (hk : (iter wd cfg n s).nSolve ≤ k) : iter wd' cfg n s = iter wd cfg n s := by
+  induction n with
+  | zero => rfl
+  | succ n ih =>
+    rw [iter_succ'] at hk
+    have h1 := (step_mono wd cfg (iter wd cfg n s)).1
+    rw [iter_succ', iter_succ', ih (by omega), step_agree wd cfg A _ hk]
+
+/-! ### the trace of solver calls -/
+
+/-- every call either converged or is a failed primary call that the backup solver took over -/
+def CallsClean (l : List (Bool × SolveOutcome)) : Prop :=
+  ∀ c ∈ l, c.2.ok = true ∨ (cfg.backup = true ∧ c.1 = false)
+
+def Halt.isNoConv : Halt → Bool
+  | .flagNoConv | .raiseNoConv => true
+  | _ => false
+
+structure CInv (s : St W RN RL) : Prop where
+  len : s.nSolve = s.calls.length
+  noconv : ∀ h, s.halt = some h → h.isNoConv = true →
+    ∃ pre o, s.calls = pre ++ [(cfg.backup, o)] ∧ o.ok = false ∧ CallsClean cfg pre
+  clean : (∀ h, s.halt = some h → h.isNoConv = false) → CallsClean cfg s.calls
+
+theorem step_CInv {s : St W RN RL} (hs : s.halt = none) (h : CInv cfg s) : CInv cfg (step wd cfg s) := by
+  have hcl : CallsClean cfg s.calls := h.clean (fun x hx => by rw [hs] at hx; cases hx)
+  have e1 : (presolvePhase wd s).nSolve = s.nSolve ∧ (presolvePhase wd s).calls = s.calls ∧
+      (presolvePhase wd s).halt = none := by
+    cases hr : s.resolve with
+    | true => rw [presolvePhase_resolve wd hr]; exact ⟨rfl, rfl, hs⟩
+    | false => rw [presolvePhase_fresh wd hr]; exact ⟨rfl, rfl, hs⟩
+  obtain ⟨n1, c1, h1⟩ := e1
+  rw [step_running wd cfg hs]
+  obtain ⟨w', l, heq, hl⟩ := solvePhase_spec wd cfg (presolvePhase wd s)
+  have n2 : (solvePhase wd cfg (presolvePhase wd s)).1.nSolve = s.nSolve + l.length := by rw [heq]; simp [n1]
+  have c2 : (solvePhase wd cfg (presolvePhase wd s)).1.calls = s.calls ++ l := by rw [heq]; simp [c1]
+  have h2 : (solvePhase wd cfg (presolvePhase wd s)).1.halt = none := by rw [heq]; exact h1
+  split
+  · rename_i hok
+    obtain ⟨a, b, _, _, _, f⟩ := post_shape wd cfg h2
+    have hnc : ∀ x, (postPhase wd cfg (solvePhase wd cfg (presolvePhase wd s)).1).halt = some x → x.isNoConv = false := by
+      intro x hx
+      cases hn : x.isNoConv with
+      | false => rfl
+      | true =>
+        have hf : x.isFailure = true := by cases x <;> simp_all [Halt.isNoConv, Halt.isFailure]
+        have := (f x hx hf).1
+        rcases trialHalt_cases cfg with e | e <;> rw [e] at this <;> subst this <;> simp [Halt.isNoConv] at hn
+    refine ⟨by rw [a, b, n2, c2, h.len]; simp, ?_, ?_⟩
+    · intro x hx hn; rw [hnc x hx] at hn; cases hn
+    · intro _
+      rw [b, c2]
+      intro c hc
+      rcases List.mem_append.1 hc with hc | hc
+      · exact hcl c hc
+      · rcases hl with ⟨e, _⟩ | ⟨o1, e, ho1, hb⟩
+        · rw [e] at hc; simp at hc; subst hc; exact Or.inl hok
+        · rw [e] at hc; simp at hc
+          rcases hc with hc | hc
+          · subst hc; exact Or.inr ⟨hb, rfl⟩
+          · subst hc; exact Or.inl hok
+  · rename_i hok
+    have hok' : (solvePhase wd cfg (presolvePhase wd s)).2.ok = false := by simpa using hok
+    refine ⟨by simp only; rw [n2, c2, h.len]; simp, ?_, ?_⟩
+    · intro x _ _
+      simp only [c2]
+      rcases hl with ⟨e, hb⟩ | ⟨o1, e, ho1, hb⟩
+      · have hb' : cfg.backup = false := by
+          rcases hb with hb | hb
+          · rw [hok'] at hb; cases hb
+          · exact hb
+        exact ⟨s.calls, _, by rw [e, hb'], hok', hcl⟩
+      · refine ⟨s.calls ++ [(false, o1)], (solvePhase wd cfg (presolvePhase wd s)).2, by rw [e, hb]; simp, hok', ?_⟩
+        intro c hc
+        rcases List.mem_append.1 hc with hc | hc
+        · exact hcl c hc
+        · simp at hc; subst hc; exact Or.inr ⟨hb, rfl⟩
+    · intro hx
+      have := hx (failHalt cfg) rfl
+      rcases failHalt_cases cfg with e | e <;> rw [e] at this <;> simp [Halt.isNoConv] at this
+
 end Wntr.RunLoop
